@@ -8,6 +8,7 @@ import (
 
 	astits "github.com/asticode/go-astits"
 	"verif/mc"
+	"verif/ref"
 )
 
 var c16MuxScripts = [][]MOp{
@@ -102,6 +103,21 @@ func c16CallMerges(c *mc.Ctx) {
 		api string
 	}
 	pairs := [][2]dm{{{ss[0].Bytes, "data"}, {ss[1].Bytes, "data"}}, {{ss[1].Bytes, "data"}, {AFVarietyStream(c.Seed), "packet"}}}
+	// the same PIDs in opposite roles: what is the PMT PID of one stream carries audio in the other and vice versa
+	// (what one instance has learnt about a PID says nothing about that PID in another instance's stream)
+	{
+		mk := func(pmtPID, esPID uint16, tag int) []byte {
+			ccs := []uint8{0, 3, 8}
+			pmt := &astits.PMTData{ProgramNumber: 1, PCRPID: esPID, ElementaryStreams: []*astits.PMTElementaryStream{{ElementaryPID: esPID, StreamType: astits.StreamTypeAACAudio}}}
+			lists := [][]*ref.Pkt{
+				Packetize(PSIUnit(0, 0, [][]byte{SecPAT(modelPAT(1, pmtPID), ref.SecHdr{CNI: true})}, nil), nil, &ccs[0], true),
+				append(Packetize(PSIUnit(pmtPID, 0, [][]byte{SecPMT(pmt, ref.SecHdr{CNI: true})}, nil), nil, &ccs[1], true), Packetize(PSIUnit(pmtPID, 0, [][]byte{SecPMT(pmt, ref.SecHdr{CNI: true, Version: 1})}, nil), nil, &ccs[1], true)...),
+				append(Packetize(PESUnit(esPID, 0xc0, pesPayload(tag, 100, c.Seed), uint64(tag), true), nil, &ccs[2], false), Packetize(PESUnit(esPID, 0xc0, pesPayload(tag+1, 60, c.Seed), uint64(tag+1), true), nil, &ccs[2], false)...),
+			}
+			return BuildStream("roles", lists, []int{0, 1, 2, 1, 2}, nil).Bytes
+		}
+		pairs = append(pairs, [2]dm{{mk(0x100, 0x1000, 40), "data"}, {mk(0x1000, 0x100, 50), "data"}})
+	}
 	for pi, pr := range pairs {
 		drain := func(order []int, lensOut []int) [2][]string {
 			ds := [2]*astits.Demuxer{}
